@@ -150,11 +150,14 @@ CLAIMS = {
              "exception), cross-handler key check on every path that adds an argument, all four container pairs "
              "compared with == and mismatch(); the flag word Groups hands to new member handlers contains hfInGroup "
              "from the constructor on and no update clears the bit (every write evaluated over all combinations of "
-             "the flag bits it mentions), so every member runs the cross-handler key check. Which member handles a long "
-             "key is decided by an exhaustive dispatch table: the per-word part of Groups::evalArguments (helpers "
-             "inlined) is evaluated abstractly for two members and every combination of what each holds for the key "
-             "(nothing / the exact key / one / several abbreviation matches) against what a single handler does "
-             "(exact key wins, one abbreviation in total is used, none or several end in an exception).",
+             "the flag bits it mentions), so every member runs the cross-handler key check. Per-word agreement with a "
+             "single handler is decided by exhaustive tables: the whole word loop of Groups::evalArguments (helpers "
+             "inlined, members replaced by the contract of Handler::evalSingleArgument) is evaluated abstractly for two "
+             "members over scripted word sequences - T1 which member handles a long key for every combination of "
+             "(nothing / the exact key / one / several abbreviation matches) per member (exact key wins, one "
+             "abbreviation in total is used, none or several end in an exception), T2 a key ends the open value list "
+             "of every member, T3 result 'last' ends the evaluation, T4 '!' inverts the next argument of whichever "
+             "member owns it and nothing stays armed.",
         note="trusts clang AST/CFG; per-member identification rules are those of C02; value equality between the "
              "two evaluation paths is not decided",
         technique="static analysis: sibling agreement + per-iteration must-pass-through on the CFG + exhaustive "
